@@ -43,8 +43,8 @@ def run_case(ctx, i, ty, rng, reqs, pend):
         try:
             exp = ref.RefEncoder(built.infos).enc_inst(x, None, None, None, top=True)
             exp_err = None
-        except OverflowError as e:
-            exp, exp_err = None, e       # timestamp of an out-of-range date: encoding undefined
+        except (OverflowError, ValueError, OSError) as e:
+            exp, exp_err = None, e       # timestamp of an out-of-range date (year 1 / 9999 in local time): encoding undefined
         if exp_err is None:
             if d is None:
                 ctx.fail('dump', case, f'asdict raised {impl["err"]} for a conforming instance', detail=dict(src=built.source))
